@@ -53,6 +53,17 @@ class Impl:
         for k in range(6):
             for s in WorkflowStatus:
                 self.ups[(k, s.name)] = StageExecution(id=f"id{k}", ref_id=f"u{k}", status=s)
+        # the same upstreams carrying every control-flow attribute the readiness of a DOWNSTREAM stage must not depend on
+        # (the model has no such inputs): members of a deferred-choice group / mutex / cancel region, milestones, OR-split
+        self.ups_deco = {}
+        from stabilize.models.stage import SplitType
+
+        for k in range(6):
+            for s in WorkflowStatus:
+                self.ups_deco[(k, s.name)] = StageExecution(
+                    id=f"id{k}", ref_id=f"u{k}", status=s, deferred_choice_group="dc", mutex_key="mx", cancel_region="cr",
+                    milestone_ref_id="S", milestone_status="SUCCEEDED", split_type=SplitType.OR, split_conditions={"S": "False"},
+                    context={"stageEnabled": False, "continuePipelineOnFailure": True, "_jump_count": 2})
         self.idmap = {f"id{k}": k for k in range(6)}
 
     def run(self, case) -> tuple[str, list[int], list[int]]:
@@ -72,7 +83,8 @@ class Impl:
                         requisite_stage_ref_ids={f"u{k}" for k in range(len(ups))})
         st.join_threshold = thr  # set after construction: __post_init__ rejects negative N_OF_M thresholds
         try:
-            r = self.evaluate(st, [self.ups[(k, s)] for k, s in enumerate(ups)], jump_bypass=bool(byp))
+            table = self.ups_deco if (len(ups) + 2 * thr + (1 if byp else 0)) % 3 == 1 else self.ups
+            r = self.evaluate(st, [table[(k, s)] for k, s in enumerate(ups)], jump_bypass=bool(byp))
         except Exception as e:  # noqa: BLE001
             return (f"EXC:{type(e).__name__}", [], [])
         return (r.phase.name, [self.idmap[x] for x in r.failed_upstream_ids], [self.idmap[x] for x in r.active_upstream_ids])
